@@ -25,6 +25,15 @@ CLAIMS['C18'] = dict(level='proof', technique='exact finite decision over litera
     note='Trusted: syn + asd-syn literal extraction; the arithmetic model of hashfunc (tied to the source by skeleton hash and role-extracted constants; fails closed if hashfunc is restructured); little-endian target; rustc MIR. Does not decide agreement of the tables with the AUTOSAR XSDs.',
     ref='§4 C18')
 
+CLAIMS['C03'] = dict(level='other', technique='MIR event pairing (dominance / post-dominance on Ok paths) of content-list edits with parent-link edits, canonical deleted state, must-pass-through of liveness funnels over a call-graph fixpoint, closed-world who-may-write ledger',
+    text='Decides structural necessary conditions of the tree property on every path of every body: both directions of the parent/child relation are edited together, the deleted state is canonical (parent None, no content, no local membership), each of the 23 place-dependent public methods passes a propagated liveness funnel on every path to an Ok exit and the funnels reject deleted elements, and the set of functions that write the relation is closed. Three genuine defects found by these rules were repaired (fix: commits). Does not decide iterator/tree agreement or positions.',
+    note='Identity of the inserted element and the element whose parent is set is approximated by co-occurrence in one function plus dominance; reviewed exemptions (text-only edits, sort) are listed with reasons in rules/c03.py and re-verified where a premise is checkable.',
+    ref='§4 C03')
+CLAIMS['C04'] = dict(level='other', technique='MIR event pairing of structural edits and SHORT-NAME writes with path-index maintenance (dominance / all-Ok-paths), must-pass-through of the uniqueness lookup with its Some edge blocked, deviance rule for prefix re-keying, parameter-provenance rule for the two models of a cross-model move',
+    text='Decides that every event which changes which identifiable elements exist or what their paths are is paired with the matching edit of the path index on all paths, that names are checked for uniqueness before installation (one known finding: direct SHORT-NAME edit), and that prefix re-keying is segment-safe. Does not decide index = tree after arbitrary histories.',
+    note='Reviewed ledger of trigger sites in rules/c04.py; a new trigger site is reported until reviewed. Known finding: Element::set_character_data on SHORT-NAME skips the uniqueness check (documented API use).',
+    ref='§4 C04')
+
 NA = {
     'C16': 'serialisability quantifies over interleavings and compares with sequential runs; the only static route (two-phase/reduction analysis) rejects essentially every public operation of the present design, so it cannot separate code that holds the property from code that does not',
     'C20': 'statement about numeric results (exactness, correct rounding, overflow per width) computed by std parsers for all texts; no static argument in reach bounds these run-time quantities',
